@@ -6,8 +6,10 @@
 EXTENDS Producer, Json, IOUtils, TLCExt
 
 Traces == JsonDeserialize(IOEnv.TRACE_FILE)
-VARIABLES tid, l, viol, drift, log
-tvars == <<s, ev, out, h, tid, l, viol, drift, log>>
+VARIABLES tid, l, viol, drift, log,
+          lost      \* the model cannot follow the execution any more: only the clauses stated over observable actions are
+                    \* evaluated from there on (on the history of the recorded actions)
+tvars == <<s, ev, out, h, tid, l, viol, drift, log, lost>>
 
 Kind(o, k) == SelectSeq(o, LAMBDA a : a[1] = k)
 FiresOf(o) == {<<a[2], a[3]>> : a \in Range(Kind(o, "fire"))}
@@ -37,6 +39,10 @@ Clauses ==
     << <<"C01.once", C01_once>>, <<"C01.ok_only_from_ack", C01_ok_only_from_ack>>, <<"C09.order", C09_order>>,
        <<"C09.one_payload", C09_one_payload>>, <<"C09.attempts", C09_attempts>>, <<"C19.stop", C19_stop>> >>
 
+ObsClauses ==
+    << <<"C01.once", C01_once>>, <<"C01.ok_only_from_ack", C01_ok_only_from_ack>>, <<"C09.order", C09_order>>,
+       <<"C09.one_payload", C09_one_payload>>, <<"C19.stop", C19_stop>> >>
+
 \* C01 truth (full-stack traces): a send reported successful has its messages, in order and contiguous, in the
 \* log of the partition it names, appended without error by the broker that led it
 Applied(o) == IF "applied" \in DOMAIN o THEN o.applied ELSE <<>>
@@ -48,7 +54,7 @@ Truth(o, lg, tr) ==
                                  /\ SubSeqOf(tr.msgs[a[2]], lg[k].ids)
 
 TInit ==
-    /\ tid \in DOMAIN Traces /\ l = 1 /\ viol = {} /\ drift = {} /\ log = <<>>
+    /\ tid \in DOMAIN Traces /\ l = 1 /\ viol = {} /\ drift = {} /\ log = <<>> /\ lost = FALSE
     /\ s = InitState /\ ev = Ev("Init", 0, 0) /\ out = <<>> /\ h = InitHist
 
 TNext ==
@@ -57,10 +63,19 @@ TNext ==
            rec == tr.steps[l]
            e == rec.e
            s0 == [s EXCEPT !.kn = Range(rec.known)]
-       IN IF e.a = "Unexecutable" \/ ~Possible(s0, e)
-          THEN /\ viol' = viol \cup {<<"ENV.impossible", l>>}
+       IN IF e.a = "Unexecutable"
+          THEN /\ viol' = viol \cup (IF lost THEN {} ELSE {<<"ENV.impossible", l>>})
                /\ l' = Len(tr.steps) + 1
-               /\ UNCHANGED <<s, ev, out, h, tid, drift, log>>
+               /\ UNCHANGED <<s, ev, out, h, tid, drift, log, lost>>
+          ELSE IF lost \/ ~Possible(s0, e)
+          THEN LET o == [i \in DOMAIN rec.o.acts |-> IF rec.o.acts[i][1] = "fire" THEN <<"fire", rec.o.acts[i][2], rec.o.acts[i][3]>> ELSE rec.o.acts[i]]
+               IN /\ lost' = TRUE /\ s' = s /\ ev' = e /\ out' = o
+                  /\ h' = UpdHist(h, s, e, [s |-> s, out |-> o])
+                  /\ log' = log \o Applied(rec.o)
+                  /\ viol' = viol \cup (IF lost THEN {} ELSE {<<"ENV.impossible", l>>})
+                                  \cup {<<ObsClauses'[i][1], l>> : i \in {j \in DOMAIN ObsClauses : ~ObsClauses'[j][2]}}
+                                  \cup (IF ~Truth(rec.o, log', tr) THEN {<<"C01.truth", l>>} ELSE {})
+                  /\ drift' = drift /\ l' = l + 1 /\ tid' = tid
           ELSE LET r == Step(s0, e)
                    o == [i \in DOMAIN rec.o.acts |-> IF rec.o.acts[i][1] = "fire" THEN <<"fire", rec.o.acts[i][2], rec.o.acts[i][3]>> ELSE rec.o.acts[i]]
                IN /\ s' = r.s /\ ev' = e /\ out' = o
@@ -76,7 +91,7 @@ TNext ==
                         \cup (IF rec.o.exc # "" THEN {<<"ENV.exception", l>>} ELSE {})
                   /\ drift' = drift \cup {<<f, l>> : f \in Untagged(r.out, o, e)}
                   /\ (viol' # viol /\ IOEnv.TRACE_DEBUG = "1" => PrintT(<<"MISMATCH", tid, l, r.out, s0>>))
-                  /\ l' = l + 1 /\ tid' = tid
+                  /\ l' = l + 1 /\ tid' = tid /\ lost' = lost
 
 TSpec == TInit /\ [][TNext]_tvars
 Report == l > Len(Traces[tid].steps) => PrintT(<<"RESULT", tid, l - 1, viol, drift>>)
